@@ -572,3 +572,18 @@ fn socks_to_io_error(err: socks5_client::Error) -> io::Error {
         }
     }
 }
+
+#[cfg(feature = "verif")]
+pub(crate) mod verif_hooks {
+    use super::*;
+
+    /// (user name, password) the forwarder derives from the client's credentials
+    pub fn make_auth_pair(source: authentication::Source) -> Result<(String, String), String> {
+        match make_auth(source)? {
+            socks5_client::Authentication::UsernamePassword(u, p) => {
+                Ok((u.into_owned(), p.into_owned()))
+            }
+            _ => Err("unexpected authentication kind".to_string()),
+        }
+    }
+}
